@@ -348,6 +348,8 @@ func init() {
 		fs.Tri("splitsOversizedBuffer", t, w)
 		t, w = c25FlushesAtCountBound(s)
 		fs.Tri("flushesAtCountBound", t, w)
+		t, w = c02ZeroTailIsEOF(s)
+		fs.Tri("zeroTailIsEOF", t, w)
 		t, w = c25WriteErrorsSkipped(s)
 		fs.Tri("writeErrorsSkipped", t, w)
 		t, w = c25SyncErrorLogged(s)
